@@ -847,6 +847,15 @@ func runRTPackage(P *Program, L *Library, sp string, keys []string, iters, seed,
 	for _, k := range keys {
 		res := &rtResult{Key: k, Package: sp, Seed: seed, Iter: -1}
 		results = append(results, res)
+		// an argument of an opaque library type (a struct of another module with unexported state, e.g. *xml.Decoder)
+		// cannot be generated in a valid state: the zero value violates the library's own invariant and calling the
+		// function with it proves nothing (false alarm of the thorough tier on reportReq.UnmarshalXML, round 3)
+		if f := x.P.Funcs[k]; f != nil {
+			if why := opaqueLibraryParam(f); why != "" {
+				res.Error = "run-time evaluation not applicable: " + why
+				continue
+			}
+		}
 		plan, err := c.planFunc(k, iters)
 		if err != nil {
 			res.Error = err.Error()
@@ -1129,4 +1138,29 @@ func substExpr(ex Expr, m map[string]Expr) Expr {
 		return &EQuant{Forall: n.Forall, Vars: n.Vars, Body: substExpr(n.Body, m2)}
 	}
 	return ex
+}
+
+// opaqueLibraryParam: a parameter whose type is a pointer to a struct declared outside the module under verification
+// that has unexported fields (its valid states are known to its own package only).
+func opaqueLibraryParam(f *ssa.Function) string {
+	for _, p := range f.Params {
+		pt, ok := p.Type().Underlying().(*types.Pointer)
+		if !ok {
+			continue
+		}
+		n, ok := pt.Elem().(*types.Named)
+		if !ok || n.Obj().Pkg() == nil || strings.HasPrefix(n.Obj().Pkg().Path(), "github.com/emersion/go-webdav") {
+			continue
+		}
+		st, ok := n.Underlying().(*types.Struct)
+		if !ok {
+			continue
+		}
+		for i := 0; i < st.NumFields(); i++ {
+			if !st.Field(i).Exported() {
+				return "parameter " + p.Name() + " has the opaque library type *" + n.Obj().Pkg().Name() + "." + n.Obj().Name()
+			}
+		}
+	}
+	return ""
 }
